@@ -2,6 +2,7 @@
 """Writes /verif/MANIFEST.json from the table below (single source of truth for what is claimed)."""
 import json
 import os
+import sys
 
 VERIF = os.path.dirname(os.path.dirname(os.path.abspath(__file__)))
 
@@ -36,7 +37,7 @@ CLAIMS = {
         "the success edge of WriteAheadLog::append (or the no-WAL edge), with the same batch, only the write path and recovery insert into the "
         "buffer, the ack follows buffering; R2 append_payload propagates both writes and syncs before Ok under EveryWrite; R3 WAL truncation and "
         "both flushed marks are dominated by successful upload and registration; R4 the flushed mark must not be the shared last_wal_seq atomic "
-        "(KNOWN FINDING: it is); R5 a failed flush must give the taken batches back (KNOWN FINDING: 5 sites drop them); R6 recovery replays from "
+        "(KNOWN FINDING: it is); R5 a failed flush must give the taken batches back (KNOWN FINDING: 4 sites drop them; recovery's flush is safe because its failure aborts recovery); R6 recovery replays from "
         "exactly the persisted mark into the buffer before the WAL is installed, and the ingester binary recovers before it serves. Does not "
         "decide loss-freedom under arbitrary crash / fault sequences (that needs the two findings repaired), fsync semantics, repeated restarts.",
         "Trusted: rustc / driver / engine normalisers; tokio::fs and std::fs semantics; the reviewed table of WriteBuffer methods that do not insert.",
@@ -230,6 +231,23 @@ CLAIMS = {
 NOT_YET = "rule set under construction in this round; see DESIGN.md §3 for the planned static rules"
 
 
+def _with_later_rules(pid, text):
+    """rules added to the registry after the hand-written claim text: list them (id + first clause) so the claim names every rule the check runs"""
+    import importlib
+    import re
+    sys.path.insert(0, VERIF)
+    from engine import core
+    importlib.import_module("rules." + pid)
+    later = []
+    for (rid, rtext, fn, tier) in core.RULES.get(pid, []):
+        if not re.search(r"\b%s\b" % rid, text):
+            first = re.split(r"(?<=[a-z0-9\)]): ", rtext, 1)[0]
+            later.append("%s %s" % (rid, first[:200]))
+    if later:
+        text = text.rstrip() + " Rules added later (full text in DESIGN.md \u00a73, same limits apply - each decides the named structural part, not the behaviour): " + "; ".join(later) + "."
+    return text
+
+
 def main():
     props = [json.loads(l) for l in open(os.path.join(VERIF, "properties.jsonl"))]
     na_reasons = {}
@@ -242,6 +260,7 @@ def main():
         pid = pr["id"]
         if pid in CLAIMS and os.path.exists(os.path.join(VERIF, "rules", pid + ".py")):
             text, note, tech, ref = CLAIMS[pid]
+            text = _with_later_rules(pid, text)
             checks.append({
                 "property_id": pid,
                 "quick_cmd": "./check %s --tier quick" % pid,
